@@ -28,7 +28,7 @@ func main() {
 		*tier = t
 	}
 	if *mutant != "" {
-		os.Exit(selftest.RunMutantWorker(*repo, *mutant))
+		os.Exit(selftest.RunMutantWorker(*repo, *verif, *mutant))
 	}
 	props := []string{*prop}
 	if *prop == "all" {
@@ -67,7 +67,7 @@ func main() {
 			fmt.Fprintf(os.Stderr, "unknown property %q\n", id)
 			os.Exit(2)
 		}
-		selftest.Run(c, id, *repo)
+		selftest.Run(c, id, *repo, *verif)
 		if r.Finish() != 0 {
 			exit = 1
 		}
